@@ -152,9 +152,10 @@ func (al *agentListener) serv(c *conn2) {
 	}()
 
 	go func() {
-		// once sending has failed the agent is gone: close the transport so that the
-		// receive loop ends the session, and keep taking (and dropping) messages until
-		// then, otherwise everything that writes to out would block forever
+		// once sending has failed the agent is gone and the receive loop will end the
+		// session as soon as it has handled what the agent had sent before; keep taking
+		// (and dropping) messages until then, otherwise everything that writes to out
+		// would block forever
 		failed := false
 
 		for {
@@ -170,10 +171,6 @@ func (al *agentListener) serv(c *conn2) {
 				} else if err := c.send(bm); err != nil {
 					log.Errorf("Error sending object: %s", err.Error())
 					failed = true
-				}
-
-				if failed {
-					c.Close()
 				}
 			case <-ctx.Done():
 				return
